@@ -26,7 +26,7 @@ BIN_CONFIGS = [
     (100, 1e6 + 0.1, 1e6 + 10.1), (5, -1e-3, 1e-3), (2, -0.3, -0.09999999999999998), (10, -5.0, 5.0), (6, 0.1, 0.7),
 ]
 SPARSE_CONFIGS = [(1.0, 0.0), (0.5, 0.25), (0.1, 0.0), (1.0 / 3.0, 1e6 + 0.1), (2.0, -7.0), (1e-3, 0.0)]
-CENTERS = [[0.0, 2.0], [1.0, 2.0, 4.0], [-0.1, 0.2, 0.3], [-1e6, 0.0, 1e6]]
+CENTERS = [[0.0, 2.0], [1.0, 2.0, 4.0], [-0.1, 0.2, 0.3], [-1e6, 0.0, 1e6], [-3.0, 1.1, 5.2], [0.1, 0.7, 1.3, 2.9]]
 EDGES = [[0.0, 1.0], [0.0], [-0.1, 0.2, 0.3], [-1e6, 0.0, 1e-6, 1e6]]
 
 
@@ -638,6 +638,16 @@ def run_C02(tier, workdir):
     if tier == "thorough":
         for cfg in SPARSE_CONFIGS:
             jobs.append(lambda cfg=cfg: [r for r in obligations_sparse(_cfgname(cfg), cfg[0], cfg[1], workdir, tl) if "monotone" in r["id"]])
+    H = _H()
+    for cs in CENTERS:
+        def cjob(cs=cs):
+            # documented routing of CentrallyBin: the nearest centre, the cut between neighbours is (c1 + c2) / 2 evaluated
+            # in double arithmetic, a datum on the cut goes to the upper bin (reference intervals computed here, not by the library)
+            h = H.CentrallyBin(cs, eval(IDENT))
+            c = sorted(cs)
+            rng = {i: (float("-inf") if i == 0 else (c[i - 1] + c[i]) / 2.0, float("inf") if i == len(c) - 1 else (c[i] + c[i + 1]) / 2.0, i == len(c) - 1) for i in range(len(c))}
+            return obligations_index_vs_range("CentrallyBin", repr(cs), h, "index", rng, workdir, tl, what="index-equals-documented-nearest-centre-rule")
+        jobs.append(cjob)
     try:
         n = validate_translator(workdir)
         results = _pool(jobs)
@@ -658,14 +668,14 @@ def run_C09(tier, workdir):
 
 
 # ----------------------------------------------------------------------------- C13: the partition fill uses vs the edges the views report
-def obligations_index_vs_range(cls_name, cfg_name, h, meth, ranges, workdir, tlimit):
+def obligations_index_vs_range(cls_name, cfg_name, h, meth, ranges, workdir, tlimit, what="datum-inside-reported-edges-of-its-bin"):
     """for every double x: if the index kernel returns i then the reported edges of bin i contain x
     (ranges[i] = (lo, hi) are obtained by calling the real accessor concretely; the index kernel is encoded from source)"""
     import ast
 
     from histogrammar.defs import Factory
 
-    name = "%s/%s/datum-inside-reported-edges-of-its-bin" % (cls_name, cfg_name)
+    name = "%s/%s/%s" % (cls_name, cfg_name, what)
     try:
         k = Kernel(Factory.registered[cls_name], h, {})
         k.events, k.raises = [], []
